@@ -2,7 +2,7 @@
 import importlib
 import os
 
-TRANSLATORS: list[str] = ["proto", "options", "regex"]  # module names under harness.translators, each with regenerate()
+TRANSLATORS: list[str] = ["proto", "options", "regex", "calls"]  # module names under harness.translators, each with regenerate()
 
 
 def regenerate_all():
